@@ -193,13 +193,17 @@ fn same_violation(check: &dyn Check, t: &Trace, ctx: &Ctx, rule: &str) -> bool {
     matches!(exec_guarded(check, t, &mut st, ctx), Ok(Verdict::Violation { rule: r, .. }) if r == rule)
 }
 
-fn shrink_string(s: &str, keep: &mut dyn FnMut(&str) -> bool) -> String {
+fn shrink_string(s: &str, keep: &mut dyn FnMut(&str) -> bool, exhausted: &std::cell::Cell<bool>) -> String {
     let mut cs: Vec<char> = s.chars().collect();
     let mut chunk = (cs.len() / 2).max(1);
     loop {
         let mut i = 0;
         let mut progressed = false;
         while i < cs.len() {
+            if exhausted.get() {
+                // budget used up: every further candidate would be refused unseen
+                return cs.into_iter().collect();
+            }
             let end = (i + chunk).min(cs.len());
             let mut cand = cs.clone();
             cand.drain(i..end);
@@ -228,8 +232,10 @@ pub fn minimise(check: &dyn Check, t: &Trace, ctx: &Ctx, rule: &str, budget: usi
     // bursts, gigantic screens) can take seconds. The minimised trace is verified by a fresh-process
     // replay anyway, so stopping early only means a longer replay file.
     let started = Instant::now();
+    let exhausted = std::cell::Cell::new(false);
     let mut try_cand = |cand: &Trace, attempts: &mut usize| -> bool {
         if *attempts >= budget || started.elapsed().as_secs() >= 45 {
+            exhausted.set(true);
             return false;
         }
         *attempts += 1;
@@ -257,7 +263,7 @@ pub fn minimise(check: &dyn Check, t: &Trace, ctx: &Ctx, rule: &str, budget: usi
         if !progressed {
             chunk = (chunk / 2).max(1);
         }
-        if attempts >= budget {
+        if attempts >= budget || exhausted.get() {
             break;
         }
     }
@@ -277,7 +283,7 @@ pub fn minimise(check: &dyn Check, t: &Trace, ctx: &Ctx, rule: &str, budget: usi
             }
             try_cand(&cand, &mut attempts)
         };
-        let s1 = shrink_string(&s0, &mut keep);
+        let s1 = shrink_string(&s0, &mut keep, &exhausted);
         let _ = kind;
         match &mut best.events[idx] {
             Event::FeedStr { s, .. } | Event::Feed { s } => *s = s1,
@@ -615,6 +621,7 @@ pub fn run_check(check: &dyn Check, tier: Tier, seed: u64, runs_override: Option
         harness_err: Option<String>,
         steps_events: u64,
         steps_chars: u64,
+        slowest: (u64, u64),
     }
     let outs: Mutex<Vec<WorkerOut>> = Mutex::new(vec![]);
     const CHUNK: u64 = 64;
@@ -643,6 +650,7 @@ pub fn run_check(check: &dyn Check, tier: Tier, seed: u64, runs_override: Option
                     harness_err: None,
                     steps_events: 0,
                     steps_chars: 0,
+                    slowest: (0, 0),
                 };
                 'outer: loop {
                     let base = next.fetch_add(CHUNK, Ordering::SeqCst);
@@ -654,6 +662,7 @@ pub fn run_check(check: &dyn Check, tier: Tier, seed: u64, runs_override: Option
                             break 'outer;
                         }
                         let mut r = Rng::new(run_seed(seed, id, run));
+                        let run_started = Instant::now();
                         {
                             let mut sl = slots[w].lock().unwrap();
                             sl.run = run;
@@ -674,6 +683,10 @@ pub fn run_check(check: &dyn Check, tier: Tier, seed: u64, runs_override: Option
                         }
                         let v = exec_guarded(check, &t, &mut o.stats, ctx);
                         o.evaluations += 1;
+                        let took = run_started.elapsed().as_millis() as u64;
+                        if took > o.slowest.0 {
+                            o.slowest = (took, run);
+                        }
                         match v {
                             Ok(Verdict::Pass { digest, nontrivial }) => {
                                 if nontrivial {
@@ -771,6 +784,7 @@ pub fn run_check(check: &dyn Check, tier: Tier, seed: u64, runs_override: Option
     let mut fail: Option<(u64, String, String)> = None;
     let mut steps_events = 0u64;
     let mut steps_chars = 0u64;
+    let mut slowest = (0u64, 0u64);
     for o in &outs {
         if let Some(e) = &o.harness_err {
             eprintln!("HARNESS-ERROR: the harness itself panicked: {}", e);
@@ -783,6 +797,9 @@ pub fn run_check(check: &dyn Check, tier: Tier, seed: u64, runs_override: Option
         skipped += o.skipped;
         steps_events += o.steps_events;
         steps_chars += o.steps_chars;
+        if o.slowest.0 > slowest.0 {
+            slowest = o.slowest;
+        }
         for (k, v) in &o.known {
             *known.entry(k.clone()).or_insert(0) += v;
         }
@@ -862,6 +879,7 @@ pub fn run_check(check: &dyn Check, tier: Tier, seed: u64, runs_override: Option
             "seeds_note": "one VERIF_SEED per invocation; every run derives its own PRNG seed from (VERIF_SEED, property, run index), so seeds per hour = simulated runs per hour",
             "simulated_time": "n/a (no clock in avt); simulated steps are reported instead",
             "simulated_steps": {"events_delivered": steps_events, "characters_fed": steps_chars},
+            "slowest_run": {"run": slowest.1, "wall_ms": slowest.0, "hang_limit_ms": hang_limit_s() * 1000},
             "fault_kinds_fired": Value::Object(fault_kinds),
             "counters": Value::Object(counters),
             "reach_probes_at_zero": probes_zero,
@@ -885,7 +903,7 @@ pub fn run_check(check: &dyn Check, tier: Tier, seed: u64, runs_override: Option
         return 2;
     }
     println!(
-        "{} tier={} seed={} runs={} skipped={} distinct_nontrivial={} known_hits={:?} violations={} wall={:.1}s digest={:016x}",
+        "{} tier={} seed={} runs={} skipped={} distinct_nontrivial={} known_hits={:?} violations={} wall={:.1}s slowest_run={}:{}ms digest={:016x}",
         id,
         tier.name(),
         seed,
@@ -895,6 +913,8 @@ pub fn run_check(check: &dyn Check, tier: Tier, seed: u64, runs_override: Option
         known,
         violations,
         wall,
+        slowest.1,
+        slowest.0,
         trace_digest
     );
     if violations > 0 {
